@@ -9,8 +9,8 @@
      recent d n    = the last statuses of the n most recently started runs of d, newest first
    Start stamps are the strings yyyymmdd.hh:mm:ss.mmm; for this fixed-width format the byte order IS the
    chronological order (years 2000-2999).
-   Reading fixed here (DESIGN.md C06): a run that has been opened but has no status yet still is the most
-   recently started run - latest answers "error", recent lists nothing in its slot. *)
+   A run that has been opened but has no status yet is not listed (since 3aa388e the readers skip it; before that
+   repair it counted as the most recently started run: latest answered an error, recent lost a slot). *)
 From Coq Require Import List String Ascii Bool Arith ZArith.
 Import ListNotations.
 From BD.Hist Require Import GoMatch Model.
@@ -92,12 +92,14 @@ Definition sp_find (h : hist) (d req : string) : option payload :=
   | None => None
   end.
 
+Definition has_status (a : arun) : bool := match a_sts a with [] => false | _ :: _ => true end.
+
 Definition sp_latest (h : hist) (d : string) (day : option string) : lres :=
-  match newest_first (runs_of h d day) with
+  match newest_first (filter has_status (runs_of h d day)) with
   | [] => LNoData
-  | a :: _ => match last_opt (a_sts a) with Some p => LOk p | None => LErr end
+  | a :: _ => match last_opt (a_sts a) with Some p => LOk p | None => LNoData end
   end.
 
 Definition sp_recent (h : hist) (d : string) (n : nat) : list payload :=
   flat_map (fun a => match last_opt (a_sts a) with Some p => [p] | None => [] end)
-           (firstn n (newest_first (runs_of h d None))).
+           (firstn n (newest_first (filter has_status (runs_of h d None)))).
